@@ -23,7 +23,7 @@ P = Prop("C12", "exploration",
 
 def _point_for(cls, k, v):
     """returns (x, y) as integers in [0, 2^256) for the coordinate class"""
-    Pt = M.mul(k, M.G)
+    Pt = M.mul(k, M.G) if cls not in ("x+p", "y+p", "valid-small-x", "valid-small-y") else (0, 0)
     x, y = Pt
     R = gen.R256
     if cls == "valid":
@@ -39,9 +39,15 @@ def _point_for(cls, k, v):
     if cls == "x=p":
         return M.P, y
     if cls == "x+p":
-        return (x + M.P, y) if x + M.P < R else (M.P, y)     # same residue, not reduced
+        sx, sy = M.small_x_point(k)                          # same residue, not reduced: only coordinates < 2^256 - p have one
+        return sx + M.P, sy
     if cls == "y+p":
-        return (x, y + M.P) if y + M.P < R else (x, M.P)
+        sx, sy = M.small_y_point(k)
+        return sx, sy + M.P
+    if cls == "valid-small-x":
+        return M.small_x_point(k)
+    if cls == "valid-small-y":
+        return M.small_y_point(k)
     if cls == "max":
         return R - 1, R - 1
     if cls == "zero":
@@ -60,7 +66,7 @@ def _point_for(cls, k, v):
     raise AssertionError(cls)
 
 
-CLASSES = ["valid", "valid", "neg", "wrong-y", "x>=p", "y>=p", "x=p", "x+p", "y+p", "max", "zero", "y=0", "x=0", "no-sqrt", "random"]
+CLASSES = ["valid", "valid", "neg", "wrong-y", "x>=p", "y>=p", "x=p", "x+p", "y+p", "valid-small-x", "valid-small-y", "max", "zero", "y=0", "x=0", "no-sqrt", "random"]
 
 pt_case = st.fixed_dictionaries({"cls": st.sampled_from(CLASSES), "k": st.one_of(st.integers(1, 50), gen.z256(M.N).map(u).filter(lambda a: a != 0)).map(h),
                                  "v": gen.z256(), "dirty": st.booleans()})
